@@ -164,6 +164,17 @@ impl Pattern {
         self.prefix_regex.is_match(path)
     }
 
+    /// Returns true if this pattern fully matches the given directory path
+    /// and every path below it, i.e. the pattern ends with an unescaped `.*` (`**` in a glob)
+    /// and it fully matches a prefix of the directory path
+    pub fn matches_subtree(&self, dir_path: &str) -> bool {
+        let matches_any_suffix = match self.src.strip_suffix(".*") {
+            Some(rest) => rest.chars().rev().take_while(|c| *c == '\\').count() % 2 == 0,
+            None => false,
+        };
+        matches_any_suffix && self.matches_prefix(dir_path)
+    }
+
     /// Returns true if this pattern fully matches given file path
     pub fn matches_path(&self, path: &Path) -> bool {
         self.anchored_regex
